@@ -42,6 +42,9 @@ ASSUMPTIONS = [
     "and InRange (outbound counters of the final state <= sys.maxsize + 1, i.e. within SQLite's INTEGER range)",
 ]
 MODELLED_NOT_VERIFIED = [
+    "C07 coalesced reads (several frames in one read) are n consecutive deliverNext events in the model (lock-step "
+    "correspondence + oracle); application hooks that SEND (on_state_change(ACTIVE), on_logon) are a configuration of "
+    "oracle walks only (re-entrant send_msg from inside a handler has no counterpart in the sequential model)",
     "C07 back-pressure: a send_msg() suspended in drain() (events S / R: the coroutine is parked after write() and resumed "
     "later, reader-task events of the same endpoint run in between) is an ordinary appSend in the model - the model's send "
     "is complete once journaled and written; covered by lock-step correspondence + oracle ('accepted' = send_msg returned)",
@@ -146,6 +149,8 @@ class Pair:
         self.suspended_total = getattr(self, "suspended_total", 0) + getattr(self, "suspended", 0)
         self.suspended = 0
         self.fault = {"I": None, "A": None}       # (hook, argument) that raises on that side, or None
+        self.hooksend = {"I": set(), "A": set()}      # hooks of that side that send an application message
+        self.hook_sends = 0
         self.reader_dead = {"I": False, "A": False}   # an exception escaped from socket_read_task(): the task ended
         self.faults_raised = 0
         for side, e in self.ends.items():
@@ -181,6 +186,23 @@ class Pair:
 
             async def hook(*a):
                 await orig(*a)
+                hs = pair.hooksend[side]
+                if (name == "on_state_change" and "on_state_change:17" in hs and key(*a) == 17) or \
+                        (name == "on_logon" and "on_logon" in hs and a and a[0]):
+                    # a hook that SENDS one application message and returns normally (examples/client_example.py does
+                    # this from on_state_change(ACTIVE)); a refused send is swallowed by the hook itself
+                    pair.hook_sends += 1
+                    m = ("D", [(11, f"hook{side}{pair.hook_sends}"), (58, "sent from a hook"), (5001, f"h{side}#{pair.hook_sends}")])
+                    msg = e.FIXMessage(e.FMsg("D"))
+                    for t, v in m[1]:
+                        msg.set(t, v)
+                    try:
+                        await c.send_msg(msg)
+                    except Exception:
+                        pass
+                    else:
+                        pair.accepted[side].append((m[0], list(m[1])))
+                        pair.started[side].append([(m[0], list(m[1])), True])
                 f = pair.fault[side]
                 if f and f[0] == name and (f[1] is None or f[1] == key(*a) or
                                            (f[1] == "connected" and isinstance(key(*a), int) and key(*a) > 3)):
@@ -307,6 +329,10 @@ class Pair:
                 self.anomalies.append(("send-suspended-twice", m))
                 coro.close()
             return self._collect(side)
+        if k == "H":
+            # configuration: ("H", side, hook) - that hook of that side sends one application message when it runs
+            self.hooksend[ev[1]].add(ev[2])
+            return []
         if k == "F":
             # fault injection: ("F", side, hook, arg) arms a raising hook, ("F", side, None, None) repairs it
             self.fault[ev[1]] = (ev[2], ev[3]) if ev[2] else None
@@ -314,10 +340,16 @@ class Pair:
         if k == "d":
             side, now = ev[1], ev[2]
             cuts = list(ev[3]) if len(ev) > 3 else []
+            ncoal = ev[4] if len(ev) > 4 else 1
             self._clock(now)
             if not self.q[side]:
                 return []
-            raw = self.q[side].pop(0)
+            # COALESCED delivery: up to `ncoal` consecutive frames in flight reach the reader in ONE read (or, with cuts,
+            # as tail of one frame + the next frame ...)
+            raw = b"".join(self.q[side][:ncoal])
+            if ncoal > 1 and len(self.q[side]) > 1:
+                self.coalesced = getattr(self, "coalesced", 0) + 1
+            del self.q[side][:ncoal]
             if not self.sock(side):
                 return []
             e = self.ends[side]
@@ -449,7 +481,8 @@ def ev_tokens(ev):
         # in the model a send is complete when it is journaled and written: the suspension in drain() has no state
         return f"s {ev[1]} {ev[2]} {S.stok(S.stamp(ev[2]))} {S.msg_tok(ev[3])}"
     if k == "d":
-        return f"d {ev[1]} {ev[2]} {S.stok(S.stamp(ev[2]))}"
+        one = f"d {ev[1]} {ev[2]} {S.stok(S.stamp(ev[2]))}"
+        return " / ".join([one] * (ev[4] if len(ev) > 4 else 1))
     if k == "o":
         return f"o {ev[1]} {ev[2]} {S.stok(S.stamp(ev[2]))} {S.stok(ev[3])}"
     if k == "x":
@@ -457,7 +490,7 @@ def ev_tokens(ev):
     return f"{k} {ev[1]} {S.stok(S.stamp(ev[1]))}"
 
 
-MODEL_SILENT = ("R", "F")   # events without a counterpart in the model (resume of a suspended send, fault arming)
+MODEL_SILENT = ("R", "F", "H")   # events without a counterpart in the model (resume of a suspended send, fault arming)
 
 
 def ev_now(ev, default=T0):
@@ -476,7 +509,7 @@ def ev_from_json(j):
     if j[0] in ("s", "S"):
         return (j[0], j[1], j[2], (j[3][0], [(int(t), v) for t, v in j[3][1]]))
     if j[0] == "d" and len(j) > 3:
-        return ("d", j[1], j[2], tuple(j[3]))
+        return ("d", j[1], j[2], tuple(j[3])) + tuple(j[4:])
     return tuple(j)
 
 
@@ -485,7 +518,8 @@ def model_line(events, k, hb=HB):
 
 
 def short(ev):
-    return ev[0] + (ev[1] if ev[0] in ("s", "d", "o", "x", "S", "R", "F") else "") + ("~" if ev[0] == "d" and len(ev) > 3 and ev[3] else "")
+    return (ev[0] + (ev[1] if ev[0] in ("s", "d", "o", "x", "S", "R", "F", "H") else "") +
+            ("~" if ev[0] == "d" and len(ev) > 3 and ev[3] else "") + (f"*{ev[4]}" if ev[0] == "d" and len(ev) > 4 else ""))
 
 
 # ------------------------------------------------------------------------------------------------
@@ -519,7 +553,7 @@ def payload(side, n):
     return (mt, tags)
 
 
-def gen_walk(pair: Pair, rng, max_len, max_breaks, on_event=None):
+def gen_walk(pair: Pair, rng, max_len, max_breaks, on_event=None, coalesce=True):
     """generate a random walk online (choices depend on the implementation's state) and run it on `pair`;
     returns [(event, lite, full|None)]"""
     pair.reset()
@@ -530,6 +564,7 @@ def gen_walk(pair: Pair, rng, max_len, max_breaks, on_event=None):
     p_logout = rng.choice([0.0, 0.03, 0.06])
     p_chunk = rng.choice([0.0, 0.5, 1.0])
     p_suspend = rng.choice([0.0, 0.0, 0.4])     # BACK-PRESSURE: sends whose drain() really suspends
+    p_coalesce = rng.choice([0.0, 0.0, 0.5]) if coalesce else 0.0   # several frames in flight arrive in ONE read
     out = []
     for i in range(n):
         now += rng.choice([0, 125, 250, 1000])
@@ -575,6 +610,8 @@ def gen_walk(pair: Pair, rng, max_len, max_breaks, on_event=None):
             ev = ("S",) + ev[1:]
         if ev[0] == "d" and rng.random() < p_chunk:
             ev = ev + (tuple(round(rng.random(), 3) for _ in range(rng.randint(1, 3))),)
+        if ev[0] == "d" and len(pair.q[ev[1]]) > 1 and rng.random() < p_coalesce:
+            ev = (ev + ((),))[:4] + (rng.randint(2, 4),)
         toks = pair.apply(ev)
         if on_event:
             on_event(ev, toks)
@@ -718,6 +755,19 @@ def compare_walk(events, impl_segs, model_reply, label):
     """impl_segs: one segment per event that has a model counterpart (see MODEL_SILENT)"""
     pos = [i for i, e in enumerate(events) if e[0] not in MODEL_SILENT]
     msegs = model_reply.split(" | ") if model_reply else []
+    if model_reply != "bad-op" and any(e[0] == "d" and len(e) > 4 for e in events):
+        # a coalesced delivery is `n` deliveries in the model: effects concatenated, state of the last one
+        merged, j = [], 0
+        for i in pos:
+            g = events[i][4] if events[i][0] == "d" and len(events[i]) > 4 else 1
+            grp = msegs[j:j + g]
+            j += g
+            if not grp:
+                break
+            effs = [x.split(" # ", 1)[0] for x in grp]
+            effs = [x for x in effs if x != "-"]
+            merged.append((";".join(effs) if effs else "-") + " # " + grp[-1].split(" # ", 1)[1])
+        msegs = merged
     if model_reply == "bad-op" or len(msegs) != len(impl_segs):
         return {"input": {"events": [ev_json(e) for e in events], "label": label}, "model": model_reply[:600],
                 "impl": f"{len(impl_segs)} segments"}
@@ -844,6 +894,11 @@ def correspondence(ctx):
 
             walk = gen_walk(pair, ctx.rng, ml, mb, on_event)
             events = [e for e, _ in walk]
+            kk = K
+            if any(e[0] == "d" and len(e) > 4 for e in events):
+                # coalesced deliveries are several model events: whole state compared at the end only
+                segs[:] = [x.split(" # FULL")[0] for x in segs]
+                kk = 0
             if not segs[-1].count(" # FULL"):
                 segs[-1] += " # " + pair.full()
             note_walk(stats, pair, walk)
@@ -854,7 +909,7 @@ def correspondence(ctx):
             for (ev, toks), seg in zip([x for x in walk if x[0][0] not in MODEL_SILENT], segs):
                 distinct.add((short(ev), tuple(t.split("=")[0] for t in toks), seg.split(" # ")[1].split(" ")[0],
                               seg.split(" # ")[2].split(" ")[0]))
-            walks.append((f"walk{w}", events, segs, K))
+            walks.append((f"walk{w}", events, segs, kk))
             if pair.anomalies:
                 dis.append({"input": {"events": [ev_json(e) for e in events], "label": "harness-anomaly"},
                             "model": "-", "impl": repr(pair.anomalies[:3])[:600]})
@@ -878,15 +933,20 @@ def correspondence(ctx):
 
                 walk = gen_walk(fpair, ctx.rng, ml, mb, on_fevent)
                 events = [e for e, _ in walk]
+                kk = K
+                if any(e[0] == "d" and len(e) > 4 for e in events):
+                    segs[:] = [x.split(" # FULL")[0] for x in segs]
+                    kk = 0
                 if not segs[-1].count(" # FULL"):
                     segs[-1] += " # " + fpair.full()
                 note_walk(stats, fpair, walk)
                 stats["file_walks"]["restarts"] += fpair.restarts
-                walks.append((f"filewalk{w}", events, segs, K))
+                walks.append((f"filewalk{w}", events, segs, kk))
                 if fpair.anomalies:
                     dis.append({"input": {"events": [ev_json(e) for e in events], "label": "harness-anomaly"},
                                 "model": "-", "impl": repr(fpair.anomalies[:3])[:600]})
             stats["chunked_deliveries"] = getattr(pair, "chunked", 0) + getattr(fpair, "chunked", 0)
+            stats["coalesced_deliveries"] = getattr(pair, "coalesced", 0) + getattr(fpair, "coalesced", 0)
         finally:
             fpair.close()
         # long scenarios: backlogs around batching constants, journals with holes / gap-fill rows
@@ -936,6 +996,7 @@ def correspondence(ctx):
                     "application send on either side with 4 message kinds (explicit 43=N / stale 122; values that look like framing: "
                     "8=FIX.4.4, 10=000, 9=12, FIX.* under tags ending in 8, '=' inside values, values longer than one read), delivery "
                     "of the next frame in either direction as a whole or in 2-4 arbitrary chunks through the real reader loop, "
+                    "2-4 consecutive frames COALESCED into one read (also as tail of one frame + the next frame), "
                     "graceful logout by either application, sends whose drain() really suspends (resumed later, the reader of the "
                     "same endpoint runs in between), on a second population of walks over SQLite FILE journals also "
                     "endpoint restart (new Journaler + connection object over the same file), "
@@ -1128,6 +1189,39 @@ def fault_walk(pair: Pair, rng, mon, max_len, max_breaks, stats):
                              "observed": f"states {pair.state('I')} {pair.state('A')} ({key} on {side})"})
 
 
+def hooksend_walk(pair: Pair, rng, mon, max_len, max_breaks, stats):
+    """CONFIGURATION: application hooks that SEND (on_state_change(ACTIVE) and / or on_logon(healthy) send one
+    application message and return normally) on one or both endpoints; the ordinary sentences of C07 at every event
+    and at every quiescent point (a message sent from a hook is an accepted message like any other)."""
+    cfg = [("H", side, h) for side in "IA" for h in ("on_state_change:17", "on_logon") if rng.random() < 0.45] or \
+        [("H", "I", "on_state_change:17")]
+    done, bad = [], []
+
+    def on_event(ev, toks):
+        if not done:
+            for c_ in cfg:           # right after the first event's reset: configure (recorded for the replay)
+                pair.apply(c_)
+        done.append(ev)
+        if len(done) == 1:
+            done[0:0] = cfg
+        if not bad and mon.check(pair, done):
+            bad.append(1)
+
+    gen_walk(pair, rng, max_len, max_breaks, on_event)
+    stats["walks"] = stats.get("walks", 0) + 1
+    stats["sends_from_hooks"] = stats.get("sends_from_hooks", 0) + pair.hook_sends
+    if bad:
+        return
+    tnow = max([ev_now(e) for e in done] + [T0]) + 1000
+    drain(pair, done, mon, tnow, limit=400)
+    if not pair.quiescent() and not mon.failures_since(done):
+        mon.failures.append({"signature": "C07-recovery-does-not-complete",
+                             "what": "with hooks that send, reconnect and delivery of everything in flight do not reach quiescence",
+                             "input": {"events": [ev_json(e) for e in done]},
+                             "expected": "both ACTIVE, queues empty",
+                             "observed": f"states {pair.state('I')} {pair.state('A')}"})
+
+
 def wedge_probes(pair: Pair, mon, dis):
     """when model and implementation disagree: replay the disagreeing history with the application's on_state_change
     hook raising for each state entered in the disagreeing step (on the endpoint that entered it), repair the hook, add
@@ -1139,6 +1233,8 @@ def wedge_probes(pair: Pair, mon, dis):
         return
     probes = sorted(set(re.findall(r"([IA]):S=(\d+)", dis.get("model", "") + ";" + dis.get("impl", ""))))
     for side, st in probes:
+        if int(st) <= 3:
+            continue          # hooks raising inside disconnect(): not generated (see FAULT_HOOKS_EOF)
         f0 = len(mon.failures)
         pair.reset()
         done = []
@@ -1280,13 +1376,18 @@ def oracle(ctx, disagreements, broken):
         # exhaustive on the implementation alone (when the tie is broken, or in the thorough tier)
         # collaborator faults: raising application hooks
         fault_stats = {}
-        for _ in range(ctx.n(300, 2500) * (2 if broken else 1)):
+        for _ in range(ctx.n(200, 2500) * (2 if broken else 1)):
             fault_walk(mpair, ctx.rng, mon, ml, mb, fault_stats)
+        # configuration: hooks that send
+        hook_stats = {}
+        for _ in range(ctx.n(300, 2500) * (2 if broken else 1)):
+            hooksend_walk(mpair, ctx.rng, mon, ml, mb, hook_stats)
         pair = mpair
         if broken or ctx.tier == "thorough":
             exhaustive_impl(pair, ctx.n(8, 9), lambda p, events: mon.check(p, events))
         ctx.oracle_stats = {"states_checked": mon.n, "quiescent_points": mon.quiescent, "walks": nw, "file_walks": nwf,
-                            "restarts": restarts_total[0], "hook_faults": fault_stats, "suspended_sends": mpair.suspended_total + fpair.suspended_total,
+                            "restarts": restarts_total[0], "hook_faults": fault_stats, "hooks_that_send": hook_stats,
+                            "coalesced_deliveries": getattr(mpair, "coalesced", 0) + getattr(fpair, "coalesced", 0), "suspended_sends": mpair.suspended_total + fpair.suspended_total,
                             "chunked_deliveries": getattr(mpair, "chunked", 0) + getattr(fpair, "chunked", 0),
                             "completed_recoveries": mon.recoveries, "failures": len(mon.failures),
                             "long_scenarios": long_stats,
